@@ -153,6 +153,7 @@ public:
 #if !(FASTOR_NO_ALIAS)
         if (_does_alias) {
             _does_alias = false;
+            FASTOR_VERIF_ROUTE("view.alias_copy.tensor_views_2d");
             // Evaluate this into a temporary
             auto tmp_this_tensor = get_tensor();
             auto tmp = TensorViewExpr<Tensor<T,M,N>,2>(tmp_this_tensor,_seq0,_seq1);
@@ -228,6 +229,7 @@ public:
 #if !(FASTOR_NO_ALIAS)
         if (_does_alias) {
             _does_alias = false;
+            FASTOR_VERIF_ROUTE("view.alias_copy.tensor_views_2d");
             // Evaluate this into a temporary
             auto tmp_this_tensor = get_tensor();
             auto tmp = TensorViewExpr<Tensor<T,M,N>,2>(tmp_this_tensor,_seq0,_seq1);
@@ -299,6 +301,7 @@ public:
 #if !(FASTOR_NO_ALIAS)
         if (_does_alias) {
             _does_alias = false;
+            FASTOR_VERIF_ROUTE("view.alias_copy.tensor_views_2d");
             // Evaluate this into a temporary
             auto tmp_this_tensor = get_tensor();
             auto tmp = TensorViewExpr<Tensor<T,M,N>,2>(tmp_this_tensor,_seq0,_seq1);
@@ -362,6 +365,7 @@ public:
 #if !(FASTOR_NO_ALIAS)
         if (_does_alias) {
             _does_alias = false;
+            FASTOR_VERIF_ROUTE("view.alias_copy.tensor_views_2d");
             // Evaluate this into a temporary
             auto tmp_this_tensor = get_tensor();
             auto tmp = TensorViewExpr<Tensor<T,M,N>,2>(tmp_this_tensor,_seq0,_seq1);
@@ -425,6 +429,7 @@ public:
 #if !(FASTOR_NO_ALIAS)
         if (_does_alias) {
             _does_alias = false;
+            FASTOR_VERIF_ROUTE("view.alias_copy.tensor_views_2d");
             // Evaluate this into a temporary
             auto tmp_this_tensor = get_tensor();
             auto tmp = TensorViewExpr<Tensor<T,M,N>,2>(tmp_this_tensor,_seq0,_seq1);
@@ -488,6 +493,7 @@ public:
 #if !(FASTOR_NO_ALIAS)
         if (_does_alias) {
             _does_alias = false;
+            FASTOR_VERIF_ROUTE("view.alias_copy.tensor_views_2d");
             // Evaluate this into a temporary
             auto tmp_this_tensor = get_tensor();
             auto tmp = TensorViewExpr<Tensor<T,M,N>,2>(tmp_this_tensor,_seq0,_seq1);
@@ -555,6 +561,7 @@ public:
 #if !(FASTOR_NO_ALIAS)
         if (_does_alias) {
             _does_alias = false;
+            FASTOR_VERIF_ROUTE("view.alias_copy.tensor_views_2d");
             // Evaluate this into a temporary
             auto tmp_this_tensor = get_tensor();
             auto tmp = TensorViewExpr<Tensor<T,M,N>,2>(tmp_this_tensor,_seq0,_seq1);
@@ -629,6 +636,7 @@ public:
 #if !(FASTOR_NO_ALIAS)
         if (_does_alias) {
             _does_alias = false;
+            FASTOR_VERIF_ROUTE("view.alias_copy.tensor_views_2d");
             // Evaluate this into a temporary
             auto tmp_this_tensor = get_tensor();
             auto tmp = TensorViewExpr<Tensor<T,M,N>,2>(tmp_this_tensor,_seq0,_seq1);
@@ -694,6 +702,7 @@ public:
 #if !(FASTOR_NO_ALIAS)
         if (_does_alias) {
             _does_alias = false;
+            FASTOR_VERIF_ROUTE("view.alias_copy.tensor_views_2d");
             // Evaluate this into a temporary
             auto tmp_this_tensor = get_tensor();
             auto tmp = TensorViewExpr<Tensor<T,M,N>,2>(tmp_this_tensor,_seq0,_seq1);
@@ -759,6 +768,7 @@ public:
 #if !(FASTOR_NO_ALIAS)
         if (_does_alias) {
             _does_alias = false;
+            FASTOR_VERIF_ROUTE("view.alias_copy.tensor_views_2d");
             // Evaluate this into a temporary
             auto tmp_this_tensor = get_tensor();
             auto tmp = TensorViewExpr<Tensor<T,M,N>,2>(tmp_this_tensor,_seq0,_seq1);
@@ -824,6 +834,7 @@ public:
 #if !(FASTOR_NO_ALIAS)
         if (_does_alias) {
             _does_alias = false;
+            FASTOR_VERIF_ROUTE("view.alias_copy.tensor_views_2d");
             // Evaluate this into a temporary
             auto tmp_this_tensor = get_tensor();
             auto tmp = TensorViewExpr<Tensor<T,M,N>,2>(tmp_this_tensor,_seq0,_seq1);
